@@ -228,6 +228,8 @@ def _minit(spec, j):
       inp[..., -1] = inp[..., 0]
     else:
       init = ['bogus', 'pca', None][int(rng.randint(3))]
+    if isinstance(init, np.ndarray) and t % 3 == 1:
+      init = np.asfortranarray(init)      # memory order must not matter
     init0 = init.copy() if isinstance(init, np.ndarray) else init
     inp0 = inp.copy()
     r, e = _call(f, inp, init, seed, ret_inv, strict, 'prior')
